@@ -226,3 +226,33 @@ CURVES = ['log100_oetf', 'log100_inverse_oetf', 'log316_oetf', 'log316_inverse_o
 def transfer_total_harnesses():
     return [H(f'total_{c}', domain='x: all 2^32 f32 bit patterns', desc=f'{c}: no panic/overflow/invalid float->int for any f32; finite on [0,1]') for c in CURVES] + \
            [H(f'flatten_len_{n}', bounded=f'Vec length == {n}', domain=f'{n} pixels, concrete content', desc='from_raw_parts_mut flatten in bounds (pointer checks) and pointwise') for n in range(4)]
+KH = ('src/hsl.rs', 'k_hsl.rs', 'verif_kani_hsl')
+KL = ('src/linear_rgb.rs', 'k_lrgb.rs', 'verif_kani_lrgb')
+
+# ------------------------------------------------------------------------------------------- C17
+def plan_c17(tier, seed):
+    hs = [H('hsl_hue_nonneg', domain='rgb: every f32 triple in [0,1]^3', desc='H >= 0'),
+          H('hsl_hue_below_360', domain='[0,1]^3', desc='H < 360'),
+          H('hsl_sat_range', domain='[0,1]^3', desc='0 <= S <= 1'),
+          H('hsl_light_range', domain='[0,1]^3', desc='0 <= L <= 1'),
+          H('hsl_light_def', domain='[0,1]^3', desc='|L - (max+min)/2| <= 1e-6 (reference in f64)'),
+          H('hsl_grey', domain='g: every f32 in [0,1]', desc='grey -> (0, 0, g) exactly'),
+          H('hsl_total', domain='all f32 triples', desc='no panic/overflow'),
+          H('hsl_to_lrgb_total', domain='all f32 triples', desc='no panic/overflow (values not decided: CBMC fmodf model)')]
+    if tier == 'thorough':
+        hs += [H(n, bounded='optional: complete in principle (full [0,1]^3) but each query needs > 25 min; run under a per-harness timeout', timeout=5400,
+                 domain='[0,1]^3 restricted to the side conditions of the statement', desc=d)
+               for n, d in (('hsl_sat_def', 'S vs (max-min)/(1-|2L-1|) within 1e-4 for 0.01<=L<=0.99'),
+                            ('hsl_hue_def_red', 'H vs hexcone hue, red sextants, 0.01 deg, max-min >= 0.01'),
+                            ('hsl_hue_def_green', 'green sextants'), ('hsl_hue_def_blue', 'blue sextants'))]
+    return {'kani': [{'crate_dir': '', 'inject': [KH, KL], 'harnesses': hs, 'timeout': 22000}]}
+reg('C17', plan=plan_c17, level='proof', min_obligations=200,
+    title='HSL conversion: ranges, lightness definition, grey (S/H definitions and the round trip not decided in the quick tier)',
+    technique='Kani/CBMC loop-free harnesses over every f32 triple of [0,1]^3 on the real lrgb_to_hsl (bit-precise, complete)',
+    text='Complete bit-precise proof over all of [0,1]^3 (three symbolic f32, no loop) that the real lrgb_to_hsl returns H in [0,360), S in [0,1], L in [0,1], L within 1e-6 of (max+min)/2, '
+         'and maps grey to (0,0,g) exactly; both directions are total on arbitrary f32. The S and H hexcone equalities are complete queries too but need > 25 min each and run only in the thorough tier under a timeout '
+         '(a timeout is reported as undecided, never as a violation). HSL->RGB values, L=0/L=1 and the round trip are NOT decided: CBMC models f32 % nondeterministically and the exact-real proof was not built.',
+    note=BITPRECISE + '. ' + TOOLS,
+    assumptions=[BITPRECISE],
+    not_decided=['S within 1e-4 and H within 0.01 deg of the hexcone definition (thorough tier only, under timeout)', 'hsl_to_lrgb values, L=0 -> black, L=1 -> white', 'RGB->HSL->RGB round trip within 1e-5'],
+    design_ref='DESIGN.md §5 C17')
